@@ -178,6 +178,8 @@ scratch_pad * scratch_pad_new(mmd_engine * e, short format) {
 
 		p->label_counter = 0;
 
+		p->obfuscation_seeded = false;
+
 		// Store links in a hash for rapid retrieval when exporting
 		p->link_hash = NULL;
 		link * l;
